@@ -1967,10 +1967,23 @@ def del1(units, R):
                     return t if e['op'] == '!=' else (not t)
         return None
     import itertools
+    # tests of a counter (how deep the recursion is, how many nodes were handled): they say nothing about the node, so both
+    # outcomes are followed for every kind of node - whatever a node owns has to be released on either
+    def counter_only(e):
+        refs = [x for x in walk(e) if x.get('k') == 'ref' and x.get('dk') != 'fn']
+        return bool(refs) and not any(x.get('k') in ('mem', 'call', 'idx') or (x.get('k') == 'un' and x.get('op') == '*') for x in walk(e)) and \
+            all(u.ty(x.get('ty0', x['ty']))['c'] == 'int' and x.get('d') != item['d'] for x in refs)
+    counters = [nd for nd in cfg.nodes if nd.kind == 'branch' and nd.expr is not None and truth(nd.expr, {
+        'R': False, 'C': False, 'child': False, 'valuestring': False, 'string': False}) is None and counter_only(nd.expr)]
+    if len(counters) > 3:
+        raise AnalysisBroken('DEL1: cJSON_Delete tests %d counters' % len(counters))
     bad = []
     n_cases = 0
     for (Rb, Cb, ch, vs, st) in itertools.product((False, True), repeat=5):
-        env = {'R': Rb, 'C': Cb, 'child': ch, 'valuestring': vs, 'string': st}
+      for cvals in itertools.product((False, True), repeat=len(counters)):
+        env = {'R': Rb, 'C': Cb, 'child': ch, 'valuestring': vs, 'string': st,
+               '@cnt': {nd.id: v for nd, v in zip(counters, cvals)},
+               '@cnt-desc': ', '.join('%s %s' % (expr_str(nd.expr)[:30], 'true' if v else 'false') for nd, v in zip(counters, cvals))}
         n_cases += 1
         events = []        # ('release', what) | ('read', field)
         nid = cfg.entry.id
@@ -2017,6 +2030,8 @@ def del1(units, R):
             succ = cfg.succ[nid]
             if node.kind == 'branch':
                 t = truth(node.expr, env)
+                if t is None and node.id in env.get('@cnt', {}):
+                    t = env['@cnt'][node.id]
                 if t is None:
                     raise AnalysisBroken('DEL1: %s: condition %s of cJSON_Delete is not about the node being deleted'
                                          % (fn.where(node.expr), expr_str(node.expr)[:50]))
@@ -2051,9 +2066,11 @@ def del1(units, R):
             problems.append('%s->%s used after the node was released' % (item['n'], uaf[0]))
         if problems:
             bad.append((env, problems))
-    desc = lambda env: '%s%s node with%s child, with%s value string, with%s key' % (
+    desc = lambda env: '%s%s node with%s child, with%s value string, with%s key%s' % (
         'reference ' if env['R'] else '', 'constant-key' if env['C'] else 'plain', '' if env['child'] else 'out',
-        '' if env['valuestring'] else 'out', '' if env['string'] else 'out')
+        '' if env['valuestring'] else 'out', '' if env['string'] else 'out',
+        (' when ' + env['@cnt-desc'] + ' (a test of a counter, which a tree built through the API can make come out either way)')
+        if env.get('@cnt-desc') else '')
     R.ob('DEL1', fn, None, 'cJSON_Delete releases exactly what each kind of node owns, the node itself last', not bad,
          'all %d combinations of the two ownership bits and the three payload pointers' % n_cases if not bad else
          '%s: %s (%d of %d combinations wrong)' % (desc(bad[0][0]), '; '.join(bad[0][1]), len(bad), n_cases), key='delete-table')
